@@ -4,6 +4,7 @@ Refinement of the versioned table model to the plain per-key log specification (
 import Brc20.Model.TableSpec
 import Brc20.Proofs.AMap
 import Brc20.Proofs.HistOps
+import Brc20.Proofs.TableOps
 set_option linter.unusedSectionVars false
 
 namespace Brc20.Table
@@ -38,5 +39,474 @@ structure Sim (W : Nat) (t : Table K V) (s : TSpec K V) : Prop where
   cur_eq : ∀ k m, s.maxEver ≤ m + W → (eff t k).valAt m = (s.cur k).valAt m
   /-- and so does what is on disk, w.r.t. the log as of the last commit -/
   dur_eq : ∀ k m, s.maxEver ≤ m + W → (disk t k).valAt m = (s.dur k).valAt m
+
+end Brc20.Table
+
+namespace Brc20.Table
+variable {K V : Type} [DecidableEq K] [DecidableEq V]
+open Hist
+
+/-! ## Helper lemmas -/
+
+theorem eff_cached {t : Table K V} {k : K} {h : Hist V} (hc : t.cache.get? k = some h) : eff t k = h :=
+  retrieve_cached hc
+
+theorem eff_uncached {t : Table K V} {k : K} (hc : t.cache.get? k = none) : eff t k = disk t k := by
+  simp only [eff, disk, retrieve, hc]
+  cases t.cdb.get? k <;> rfl
+
+theorem disk_ok {t : Table K V} {top : Nat} (i : Inv t top) (k : K) :
+    Ok (disk t k) top ∧ (disk t k).latest = t.db.get? k := by
+  unfold disk
+  cases hd : t.cdb.get? k with
+  | some h => simpa using i.cdb_ok k h hd
+  | none => exact ⟨ok_new _ _, latest_new _⟩
+
+theorem eff_ok {t : Table K V} {top : Nat} (i : Inv t top) (k : K) : Ok (eff t k) top := by
+  cases hc : t.cache.get? k with
+  | some h => rw [eff_cached hc]; exact i.cache_ok k h hc
+  | none => rw [eff_uncached hc]; exact (disk_ok i k).1
+
+theorem latest_eff {t : Table K V} {top : Nat} (i : Inv t top) (k : K) :
+    t.latest k = (eff t k).latest := by
+  cases hc : t.cache.get? k with
+  | some h => rw [eff_cached hc]; simp [Table.latest, hc]
+  | none => rw [eff_uncached hc, (disk_ok i k).2]; simp [Table.latest, hc]
+
+theorem Rooted.valAt_ne {h : Hist V} (r : Rooted h) (n : Nat) : valAt h n ≠ none := by
+  obtain ⟨v, rest, rfl⟩ := r
+  rw [valAt_cons_le (by simp)]; simp
+
+theorem Rooted.put {h : Hist V} (r : Rooted h) (b : Nat) (x : Option V) : Rooted (Hist.put h b x) := by
+  obtain ⟨v, rest, rfl⟩ := r
+  cases rest with
+  | nil =>
+    simp only [Hist.put]
+    split
+    · rename_i hb; subst hb; exact ⟨x, [], rfl⟩
+    · exact ⟨v, _, rfl⟩
+  | cons e r => exact ⟨v, Hist.put (e :: r) b x, by simp [Hist.put]⟩
+
+theorem Rooted.filter {h : Hist V} (r : Rooted h) (n : Nat) :
+    Rooted (h.filter (fun e => decide (e.1 ≤ n))) := by
+  obtain ⟨v, rest, rfl⟩ := r
+  exact ⟨v, rest.filter (fun e => decide (e.1 ≤ n)), by simp⟩
+
+theorem Rooted.logWrite {h : Hist V} (r : Rooted h) (b : Nat) (x : Option V) :
+    Rooted (TSpec.logWrite h b x) := by
+  unfold TSpec.logWrite; split
+  · exact r
+  · exact r.put b x
+
+theorem filter_ne_nil_of_valAt {h : Hist V} (s : Sorted h) {n : Nat} (hv : valAt h n ≠ none) :
+    h.filter (fun e => decide (e.1 ≤ n)) ≠ [] := by
+  intro e
+  have := valAt_filter s n n
+  rw [e, Nat.min_self] at this
+  exact hv this.symm
+
+theorem ok_filter {h : Hist V} {top : Nat} (o : Ok h top) (n : Nat)
+    (hne : h.filter (fun e => decide (e.1 ≤ n)) ≠ []) :
+    Ok (h.filter (fun e => decide (e.1 ≤ n))) (min top n) :=
+  ((reorg_spec o n).2 _ (reorg_eq_some hne)).1
+
+theorem ok_logWrite {h : Hist V} {top b : Nat} (o : Ok h top) (hb : top ≤ b) (x : Option V) :
+    Ok (TSpec.logWrite h b x) b := by
+  unfold TSpec.logWrite; split
+  · exact o.mono hb
+  · have ob := o.mono hb
+    exact ⟨sorted_put ob.sorted ob.le, keysLe_put ob.le, put_ne_nil⟩
+
+theorem valAt_logWrite {h : Hist V} {top b : Nat} (o : Ok h top) (hb : top ≤ b) (x : Option V) (m : Nat) :
+    valAt (TSpec.logWrite h b x) m = if b ≤ m then some x else valAt h m := by
+  unfold TSpec.logWrite; split
+  · rename_i hl
+    by_cases hm : b ≤ m
+    · simp [hm, o.valAt_top (by omega : top ≤ m), hl]
+    · simp [hm]
+  · have ob := o.mono hb
+    exact valAt_put ob.sorted ob.le m
+
+/-- `set`/`unset`, common part. -/
+theorem sim_write {W : Nat} {t : Table K V} {s : TSpec K V} (h : Sim W t s) (b : Nat) (k : K) (x : Option V)
+    (hb : s.top ≤ b) (h' : Hist V) (ws : writeSpec W (eff t k) h' b x) :
+    Sim W { t with cache := t.cache.insert k h' }
+      { s with cur := TSpec.upd s.cur k (TSpec.logWrite (s.cur k) b x), top := b, maxEver := max s.maxEver b } := by
+  obtain ⟨ok', hval, _, _⟩ := ws
+  refine ⟨⟨?_, ?_, ?_⟩, ?_, ?_, ?_, ?_, ?_⟩
+  · exact AMap.nodup_insert h.inv.cache_nodup k h'
+  · intro k1 h1 hg
+    simp only [AMap.get?_insert] at hg
+    by_cases hk : k1 = k
+    · simp [hk] at hg; subst hg; exact ok'
+    · simp [hk] at hg; exact (h.inv.cache_ok k1 h1 hg).mono hb
+  · intro k1 h1 hg
+    have := h.inv.cdb_ok k1 h1 hg
+    exact ⟨this.1.mono hb, this.2⟩
+  · intro k1
+    simp only [TSpec.upd]
+    by_cases hk : k1 = k
+    · subst hk
+      simp only [if_true]
+      exact ⟨ok_logWrite (h.cur_ok k1).1 hb x, (h.cur_ok k1).2.logWrite b x⟩
+    · simp only [hk, if_false]
+      exact ⟨(h.cur_ok k1).1.mono hb, (h.cur_ok k1).2⟩
+  · intro k1
+    exact ⟨(h.dur_ok k1).1.mono hb, (h.dur_ok k1).2⟩
+  · show b ≤ max s.maxEver b
+    omega
+  · intro k1 m hm
+    have hm' : max s.maxEver b ≤ m + W := hm
+    have hm1 : s.maxEver ≤ m + W := by omega
+    have hm2 : b ≤ m + W := by omega
+    simp only [TSpec.upd]
+    by_cases hk : k1 = k
+    · subst hk
+      have e : eff { t with cache := t.cache.insert k1 h' } k1 = h' :=
+        eff_cached (by simp [AMap.get?_insert])
+      rw [e]
+      simp only [if_true]
+      rw [hval m hm2, valAt_logWrite (h.cur_ok k1).1 hb, h.cur_eq k1 m hm1]
+    · have e : eff { t with cache := t.cache.insert k h' } k1 = eff t k1 := by
+        simp [eff, retrieve, AMap.get?_insert, hk]
+      rw [e]
+      simp only [hk, if_false]
+      exact h.cur_eq k1 m hm1
+  · intro k1 m hm
+    have hm' : max s.maxEver b ≤ m + W := hm
+    exact h.dur_eq k1 m (by omega)
+
+/-! ### commit -/
+
+theorem eff_commit (W b : Nat) (t : Table K V) (k : K) : eff (t.commit W b) k = disk (t.commit W b) k :=
+  eff_uncached rfl
+
+theorem disk_commit (W b : Nat) (t : Table K V) (nd : AMap.Nodup t.cache) (k : K) :
+    disk (t.commit W b) k = match t.cache.get? k with
+      | some h => if h.isOld W b then Hist.new h.latest else h
+      | none => disk t k := by
+  obtain ⟨_, hd, hb⟩ := commit_spec W b t nd
+  unfold disk
+  rw [hd k, hb k]
+  cases hc : t.cache.get? k with
+  | none => rfl
+  | some h => cases ho : h.isOld W b <;> simp [ho]
+
+/-- In the window of `b`, what `commit b` leaves on disk says what the effective histories said. -/
+theorem valAt_disk_commit (W b : Nat) {t : Table K V} {top : Nat} (nd : AMap.Nodup t.cache)
+    (hc : ∀ k h, t.cache.get? k = some h → Ok h top) (k : K) {m : Nat} (hm : b ≤ m + W) :
+    valAt (disk (t.commit W b) k) m = valAt (eff t k) m := by
+  rw [disk_commit W b t nd k]
+  cases hg : t.cache.get? k with
+  | none => simp only []; rw [eff_uncached hg]
+  | some h =>
+    simp only []
+    rw [eff_cached hg]
+    cases ho : h.isOld W b with
+    | false => simp
+    | true => simp only [if_true]; rw [valAt_new, isOld_const (hc k h hg) ho hm]
+
+theorem inv_commit (W b : Nat) {t : Table K V} {top : Nat} (nd : AMap.Nodup t.cache)
+    (hc : ∀ k h, t.cache.get? k = some h → Ok h top)
+    (hd : ∀ k h, t.cache.get? k = none → t.cdb.get? k = some h → Ok h top ∧ h.latest = t.db.get? k) :
+    Inv (t.commit W b) top := by
+  obtain ⟨hcache, hcdb, hdb⟩ := commit_spec W b t nd
+  refine ⟨?_, ?_, ?_⟩
+  · rw [hcache]; simp [AMap.Nodup, AMap.keys]
+  · intro k h hg; rw [hcache] at hg; simp at hg
+  · intro k h hg
+    rw [hcdb k] at hg
+    rw [hdb k]
+    cases hcg : t.cache.get? k with
+    | none => rw [hcg] at hg; exact hd k h hcg hg
+    | some h0 =>
+      rw [hcg] at hg
+      simp only [] at hg ⊢
+      cases ho : h0.isOld W b with
+      | true => simp [ho] at hg
+      | false => simp [ho] at hg; subst hg; exact ⟨hc k h0 hcg, rfl⟩
+
+theorem latest_commit (W b : Nat) (t : Table K V) (nd : AMap.Nodup t.cache) (k : K) :
+    (t.commit W b).latest k = t.latest k := by
+  obtain ⟨hcache, _, hdb⟩ := commit_spec W b t nd
+  simp only [Table.latest, hcache, AMap.get?_nil, hdb k]
+  cases t.cache.get? k <;> rfl
+
+theorem sim_commit {W : Nat} {t : Table K V} {s : TSpec K V} (h : Sim W t s) (b : Nat) :
+    Sim W (t.commit W b) { s with dur := s.cur, maxEver := max s.maxEver b } := by
+  have nd := h.inv.cache_nodup
+  have key : ∀ k m, max s.maxEver b ≤ m + W → valAt (disk (t.commit W b) k) m = valAt (s.cur k) m := by
+    intro k m hm
+    rw [valAt_disk_commit W b nd h.inv.cache_ok k (by omega), h.cur_eq k m (by omega)]
+  refine ⟨?_, h.cur_ok, h.cur_ok, ?_, ?_, ?_⟩
+  · exact inv_commit W b nd h.inv.cache_ok (fun k h0 _ hg => h.inv.cdb_ok k h0 hg)
+  · show s.top ≤ max s.maxEver b
+    have := h.top_le; omega
+  · intro k m hm
+    rw [eff_commit]; exact key k m hm
+  · intro k m hm
+    exact key k m hm
+
+/-! ### clear -/
+
+theorem sim_clear {W : Nat} {t : Table K V} {s : TSpec K V} (h : Sim W t s) :
+    Sim W t.clear { s with cur := s.dur } := by
+  refine ⟨⟨?_, ?_, ?_⟩, h.dur_ok, h.dur_ok, h.top_le, ?_, ?_⟩
+  · simp [Table.clear, AMap.Nodup, AMap.keys]
+  · intro k h0 hg; simp [Table.clear] at hg
+  · exact h.inv.cdb_ok
+  · intro k m hm
+    have e : eff t.clear k = disk t k := eff_uncached (t := t.clear) rfl
+    rw [e]; exact h.dur_eq k m hm
+  · exact h.dur_eq
+
+/-! ### reorg -/
+
+/-- The loading phase of `reorg n` on a table in simulation. -/
+theorem reorg_load {W : Nat} {t : Table K V} {s : TSpec K V} (h : Sim W t s) (n : Nat)
+    (hw : s.maxEver ≤ n + W) :
+    ∃ t1, t.reorgLoad n t.reorgKeys = some t1 ∧ t1.db = t.db ∧ t1.cdb = t.cdb ∧ AMap.Nodup t1.cache ∧
+      (∀ k, (t1.cache.get? k = some ((eff t k).filter (fun e => decide (e.1 ≤ n))) ∧
+              (eff t k).filter (fun e => decide (e.1 ≤ n)) ≠ []) ∨
+            (t1.cache.get? k = none ∧ t1.cdb.get? k = none ∧ t.cache.get? k = none ∧
+              eff t1 k = Hist.new (t.db.get? k) ∧ eff t k = Hist.new (t.db.get? k))) := by
+  have hne : ∀ k, (t.retrieve k).filter (fun e => decide (e.1 ≤ n)) ≠ [] := by
+    intro k
+    apply filter_ne_nil_of_valAt (eff_ok h.inv k).sorted
+    rw [h.cur_eq k n hw]
+    exact (h.cur_ok k).2.valAt_ne n
+  obtain ⟨t1, e1, e2, e3, e4, e5⟩ := reorgLoad_spec n t.reorgKeys t hne
+  refine ⟨t1, e1, e2, e3, e4 h.inv.cache_nodup, ?_⟩
+  intro k
+  by_cases hk : k ∈ t.reorgKeys
+  · left
+    have := e5 k
+    simp only [hk, if_true] at this
+    exact ⟨this, hne k⟩
+  · right
+    have h5 := e5 k
+    simp only [hk, if_false] at h5
+    have hk' := (not_congr (mem_reorgKeys t k)).mp hk
+    have hcdb : t.cdb.get? k = none := by
+      cases hx : t.cdb.get? k with
+      | none => rfl
+      | some _ => exact absurd (Or.inl (by simp [hx])) hk'
+    have hca : t.cache.get? k = none := by
+      cases hx : t.cache.get? k with
+      | none => rfl
+      | some _ => exact absurd (Or.inr (by simp [hx])) hk'
+    rw [hca] at h5
+    refine ⟨h5, by rw [e3]; exact hcdb, hca, ?_, ?_⟩
+    · simp [eff, retrieve, h5, e3, e2, hcdb]
+    · simp [eff, retrieve, hca, hcdb]
+
+theorem sim_reorg {W : Nat} {t : Table K V} {s : TSpec K V} (h : Sim W t s) (n : Nat)
+    (hw : s.maxEver ≤ n + W) (hn : n ≤ s.maxEver) :
+    ∃ t', t.reorg W n = some t' ∧ Sim W t' (s.step (.reorg n)) := by
+  obtain ⟨t1, e1, e2, e3, nd1, hk⟩ := reorg_load h n hw
+  refine ⟨t1.commit W n, by simp [Table.reorg, e1], ?_⟩
+  have hc1 : ∀ k h0, t1.cache.get? k = some h0 → Ok h0 (min s.top n) := by
+    intro k h0 hg
+    rcases hk k with ⟨hg', hne⟩ | ⟨hg', _⟩
+    · rw [hg'] at hg; cases hg
+      exact ok_filter (eff_ok h.inv k) n hne
+    · rw [hg'] at hg; cases hg
+  have hv1 : ∀ k m, valAt (eff t1 k) m = valAt (eff t k) (min m n) := by
+    intro k m
+    rcases hk k with ⟨hg', _⟩ | ⟨_, _, _, ha, hb⟩
+    · rw [eff_cached hg', valAt_filter (eff_ok h.inv k).sorted]
+    · rw [ha, hb, valAt_new, valAt_new]
+  have key : ∀ k m, s.maxEver ≤ m + W →
+      valAt (disk (t1.commit W n) k) m = valAt ((s.cur k).filter (fun e => decide (e.1 ≤ n))) m := by
+    intro k m hm
+    rw [valAt_disk_commit W n nd1 hc1 k (by omega), hv1 k m, h.cur_eq k (min m n) (by omega),
+      valAt_filter (h.cur_ok k).1.sorted]
+  have cok : ∀ k, Ok ((s.cur k).filter (fun e => decide (e.1 ≤ n))) (min s.top n) ∧
+      Rooted ((s.cur k).filter (fun e => decide (e.1 ≤ n))) := by
+    intro k
+    have r := (h.cur_ok k).2.filter n
+    refine ⟨ok_filter (h.cur_ok k).1 n ?_, r⟩
+    obtain ⟨v, rest, hr⟩ := r
+    rw [hr]; simp
+  refine ⟨?_, cok, cok, ?_, ?_, ?_⟩
+  · apply inv_commit W n nd1 hc1
+    intro k h0 hg hd
+    rcases hk k with ⟨hg', _⟩ | ⟨_, hd', _⟩
+    · rw [hg'] at hg; cases hg
+    · rw [hd'] at hd; cases hd
+  · show min s.top n ≤ s.maxEver
+    omega
+  · intro k m hm
+    rw [eff_commit]; exact key k m hm
+  · intro k m hm
+    exact key k m hm
+
+/-! ## Statements to prove (the refinement) -/
+
+theorem sim_init (W : Nat) : Sim W (Table.empty : Table K V) TSpec.init := by
+  refine ⟨⟨?_, ?_, ?_⟩, ?_, ?_, Nat.le_refl _, ?_, ?_⟩
+  · simp [Table.empty, AMap.Nodup, AMap.keys]
+  · intro k h hg; simp [Table.empty] at hg
+  · intro k h hg; simp [Table.empty] at hg
+  · intro k; exact ⟨ok_new _ _, none, [], rfl⟩
+  · intro k; exact ⟨ok_new _ _, none, [], rfl⟩
+  · intro k m _; rfl
+  · intro k m _; rfl
+
+/-- Point reads are those of the plain map. -/
+theorem sim_latest {W : Nat} {t : Table K V} {s : TSpec K V} (h : Sim W t s) (k : K) :
+    t.latest k = s.read k := by
+  rw [latest_eff h.inv k]
+  have h1 := (eff_ok h.inv k).valAt_top h.top_le
+  have h2 := (h.cur_ok k).1.valAt_top h.top_le
+  rw [h.cur_eq k s.maxEver (by omega), h2] at h1
+  simp only [Option.some.injEq] at h1
+  exact h1.symm
+
+/-- One legal API call: the model table does not panic and stays in simulation with the plain map. -/
+theorem step_sim {W : Nat} {t : Table K V} {s : TSpec K V} (h : Sim W t s) (op : TOp K V)
+    (hl : TSpec.legal W s op) : ∃ t', t.step W op = some t' ∧ Sim W t' (s.step op) := by
+  cases op with
+  | set b k v =>
+    obtain ⟨h', e, ws⟩ := set_spec W (eff_ok h.inv k) hl v
+    refine ⟨{ t with cache := t.cache.insert k h' }, ?_, sim_write h b k (some v) hl h' ws⟩
+    unfold eff at e
+    simp [Table.step, Table.set, e]
+  | unset b k =>
+    obtain ⟨h', e, ws⟩ := unset_spec W (eff_ok h.inv k) hl
+    refine ⟨{ t with cache := t.cache.insert k h' }, ?_, sim_write h b k none hl h' ws⟩
+    unfold eff at e
+    simp [Table.step, Table.unset, e]
+  | commit b => exact ⟨t.commit W b, rfl, sim_commit h b⟩
+  | clear => exact ⟨t.clear, rfl, sim_clear h⟩
+  | reorg n => exact sim_reorg h n hl.1 hl.2
+
+/-- Any legal history, of any length. -/
+theorem run_sim {W : Nat} {t : Table K V} {s : TSpec K V} (h : Sim W t s) (ops : List (TOp K V))
+    (hl : TSpec.legalRun W s ops) : ∃ t', t.run W ops = some t' ∧ Sim W t' (s.run ops) := by
+  induction ops generalizing t s with
+  | nil => exact ⟨t, rfl, h⟩
+  | cons op ops ih =>
+    obtain ⟨t1, e1, h1⟩ := step_sim h op hl.1
+    obtain ⟨t2, e2, h2⟩ := ih h1 hl.2
+    refine ⟨t2, ?_, ?_⟩
+    · simp only [Table.run, e1]; exact e2
+    · simpa [TSpec.run] using h2
+
+/-- Rolling back inside the window restores, for every key, the value it had at the end of block `n`. -/
+theorem rollback_in_window {W : Nat} {t : Table K V} {s : TSpec K V} (h : Sim W t s) (n : Nat)
+    (hw : s.maxEver ≤ n + W) (hn : n ≤ s.maxEver) :
+    ∃ t', t.reorg W n = some t' ∧ ∀ k, t'.latest k = s.readAt k n := by
+  obtain ⟨t', e, h'⟩ := sim_reorg h n hw hn
+  refine ⟨t', e, ?_⟩
+  intro k
+  rw [sim_latest h' k]
+  have o := (h'.cur_ok k).1
+  have h1 := o.valAt_top (m := n) (Nat.min_le_right _ _)
+  have h2 : valAt ((s.cur k).filter (fun e => decide (e.1 ≤ n))) n = valAt (s.cur k) (min n n) :=
+    valAt_filter (h.cur_ok k).1.sorted n n
+  rw [Nat.min_self] at h2
+  have h3 : valAt (s.cur k) n = some (((s.step (.reorg n)).cur k).latest) := h2.symm.trans h1
+  simp only [TSpec.readAt, TSpec.read, h3]
+
+/-- After a commit, what is on disk is what was readable: a reopened table reads the same. -/
+theorem commit_then_reopen_reads {W : Nat} {t : Table K V} {s : TSpec K V} (h : Sim W t s) (b : Nat) (k : K) :
+    ((t.commit W b).reopen).latest k = t.latest k := by
+  have e : (t.commit W b).reopen = t.commit W b := rfl
+  rw [e, latest_commit W b t h.inv.cache_nodup k]
+
+/-- Discarding the cache (or reopening) returns exactly to the state of the last commit. -/
+theorem clear_reads_durable {W : Nat} {t : Table K V} {s : TSpec K V} (h : Sim W t s) (k : K) :
+    (t.clear).latest k = (s.dur k).latest := by
+  have e : t.clear.latest k = t.db.get? k := by simp [Table.latest, Table.clear]
+  rw [e, ← (disk_ok h.inv k).2]
+  have h1 := (disk_ok h.inv k).1.valAt_top h.top_le
+  have h2 := (h.dur_ok k).1.valAt_top h.top_le
+  rw [h.dur_eq k s.maxEver (by omega), h2] at h1
+  simp only [Option.some.injEq] at h1
+  exact h1.symm
+
+/-- No key keeps more than `W + 1` versions, in memory or on disk. -/
+def VersionsLe (W : Nat) (t : Table K V) : Prop :=
+  (∀ k h, t.cache.get? k = some h → h.length ≤ W + 1) ∧ (∀ k h, t.cdb.get? k = some h → h.length ≤ W + 1)
+
+theorem length_new (i : Option V) (W : Nat) : (Hist.new i).length ≤ W + 1 := by
+  simp [Hist.new]
+
+theorem eff_length {W : Nat} {t : Table K V} (hv : VersionsLe W t) (k : K) : (eff t k).length ≤ W + 1 := by
+  cases hc : t.cache.get? k with
+  | some h => rw [eff_cached hc]; exact hv.1 k h hc
+  | none =>
+    rw [eff_uncached hc]
+    unfold disk
+    cases hd : t.cdb.get? k with
+    | some h => exact hv.2 k h hd
+    | none => exact length_new _ W
+
+theorem versions_write {W : Nat} {t : Table K V} (hv : VersionsLe W t) (k : K) (h' : Hist V)
+    (hl : h'.length ≤ W + 1) : VersionsLe W { t with cache := t.cache.insert k h' } := by
+  refine ⟨?_, hv.2⟩
+  intro k1 h1 hg
+  simp only [AMap.get?_insert] at hg
+  by_cases hk : k1 = k
+  · simp [hk] at hg; subst hg; exact hl
+  · simp [hk] at hg; exact hv.1 k1 h1 hg
+
+theorem versions_commit {W : Nat} (b : Nat) {t : Table K V} (nd : AMap.Nodup t.cache)
+    (hc : ∀ k h, t.cache.get? k = some h → h.length ≤ W + 1)
+    (hd : ∀ k h, t.cache.get? k = none → t.cdb.get? k = some h → h.length ≤ W + 1) :
+    VersionsLe W (t.commit W b) := by
+  obtain ⟨hcache, hcdb, _⟩ := commit_spec W b t nd
+  refine ⟨?_, ?_⟩
+  · intro k h hg; rw [hcache] at hg; simp at hg
+  · intro k h hg
+    rw [hcdb k] at hg
+    cases hcg : t.cache.get? k with
+    | none => rw [hcg] at hg; exact hd k h hcg hg
+    | some h0 =>
+      rw [hcg] at hg
+      simp only [] at hg
+      cases ho : h0.isOld W b with
+      | true => simp [ho] at hg
+      | false => simp [ho] at hg; subst hg; exact hc k h0 hcg
+
+theorem versions_le_step {W : Nat} {t : Table K V} {s : TSpec K V} (h : Sim W t s) (hv : VersionsLe W t)
+    (op : TOp K V) (hl : TSpec.legal W s op) : ∀ t', t.step W op = some t' → VersionsLe W t' := by
+  intro t' e
+  cases op with
+  | set b k v =>
+    obtain ⟨h', e', ws⟩ := set_spec W (eff_ok h.inv k) hl v
+    unfold eff at e'
+    simp [Table.step, Table.set, e'] at e
+    subst e
+    exact versions_write hv k h' (ws.2.2.1 (eff_length hv k))
+  | unset b k =>
+    obtain ⟨h', e', ws⟩ := unset_spec W (eff_ok h.inv k) hl
+    unfold eff at e'
+    simp [Table.step, Table.unset, e'] at e
+    subst e
+    exact versions_write hv k h' (ws.2.2.1 (eff_length hv k))
+  | commit b =>
+    simp [Table.step] at e
+    subst e
+    exact versions_commit b h.inv.cache_nodup hv.1 (fun k h0 _ hg => hv.2 k h0 hg)
+  | clear =>
+    simp [Table.step] at e
+    subst e
+    exact ⟨fun k h0 hg => by simp [Table.clear] at hg, hv.2⟩
+  | reorg n =>
+    obtain ⟨t1, e1, e2, e3, nd1, hk⟩ := reorg_load h n hl.1
+    simp [Table.step, Table.reorg, e1] at e
+    subst e
+    apply versions_commit n nd1
+    · intro k h0 hg
+      rcases hk k with ⟨hg', _⟩ | ⟨hg', _⟩
+      · rw [hg'] at hg; cases hg
+        exact Nat.le_trans (List.length_filter_le _ _) (eff_length hv k)
+      · rw [hg'] at hg; cases hg
+    · intro k h0 hg hd
+      rcases hk k with ⟨hg', _⟩ | ⟨_, hd', _⟩
+      · rw [hg'] at hg; cases hg
+      · rw [hd'] at hd; cases hd
 
 end Brc20.Table
